@@ -114,7 +114,8 @@ class RouterConn:
         return self._feed(struct.pack("!L", len(data)) + data)
 
     def client_dropped(self):
-        return self.t.dropped()
+        d = self.t.dropped
+        return bool(d() if callable(d) else d)
 
     def lose(self, clean=True):
         if not self.lost:
